@@ -6,6 +6,7 @@ import (
 	"encoding/binary"
 	"errors"
 	"io"
+	"math"
 
 	"github.com/sassoftware/relic/v8/lib/binpatch"
 )
@@ -163,6 +164,10 @@ func scanFile(r io.Reader) (*machoMarkers, error) {
 			f.sigLen = int64(sig.SigLength)
 			f.loadCsStart = cmdPos
 		}
+	}
+	// the signature load command holds a 32-bit file offset
+	if f.linkEditHdr.Offset > math.MaxUint32 || f.linkEditHdr.Filesz > math.MaxUint32 {
+		return nil, errors.New("__LINKEDIT segment is too large")
 	}
 	linkEditEnd := int64(f.linkEditHdr.Offset) + int64(f.linkEditHdr.Filesz)
 	if f.sigLen != 0 {
